@@ -185,10 +185,10 @@ class SctpOrigin(Component):
 
     def cases(self, rng, tier):
         from harness import sctp_check as S
-        n, steps = (10, 220) if tier == "quick" else (150, 450)
+        n, steps = (30, 200) if tier == "quick" else (300, 450)
         out = []
         for i in range(n):
-            prof = ["reliable", "mixed-pr", "lifecycle"][i % 3]
+            prof = ["reorder-frag", "reliable", "reorder-frag", "mixed-pr", "reorder-frag", "lifecycle"][i % 6]
             c = S.make_case(rng, prof, steps, wrap=False)
             c["tsnA"], c["tsnB"] = rng.randrange(1, 1000), rng.randrange(1, 1000)
             # regenerate the schedule for these origins (ops are index based, independent of TSN values)
